@@ -408,7 +408,9 @@ func (s *srvConn) quiesce() string {
 		frames, rest := parseFrames(s.outBuf)
 		n := int64(len(frames))
 		loopGone := http2.VerifLoopExitN.Load() > 0
-		ok := served
+		// ServeConn can return a moment before the stream loop has drained what was forwarded to it: the
+		// step is over only when the loop has gone too (it may still start a handler until then)
+		ok := served && loopGone && s.enteredN() == http2.VerifDispatchedN.Load()
 		if !ok && !loopGone {
 			ok = s.mc.in.idle() &&
 				http2.VerifLoopTopN.Load() == 1+http2.VerifForwardedN.Load()+s.dones &&
